@@ -48,8 +48,8 @@ def run(ctx, model_ok):
                        "4 label shapes; each copy followed by mutation of both sides; every case has fresh random geometry/paths")
     ctx.cov["traces_validated_against_impl"] = ost["c18_copies"]
     ctx.cov["samples"] = [ost]
-    ctx.cov["not_shown"] = ["same field (C06 gives: the field is a function of the attribute values that copy_attrs_equal shows equal); whether CPython objects outside the seven modelled "
-                            "containers share state (class-level mutables, _magnetization, mesh caches, nested style sub-objects, custom 3d traces): interpreter-level oracle "
+    ctx.cov["not_shown"] = ["same field (C06 gives: the field is a function of the attribute values that copy_attrs_equal shows equal); whether CPython objects outside the eight modelled "
+                            "containers (_position, _orientation, _polarization, _dimension, _moment, _pixel, _style, the _children list object) share state (class-level mutables, _magnetization, mesh caches, nested style sub-objects, custom 3d traces): interpreter-level oracle "
                             "(reachable-graph walk, np.shares_memory, mutate-and-diff) and the per-operation overlap test of the forestattr stream",
                             "PROVED NOW (copy_kw_eq_assignments): copy(**kw) = plain copy + the assignments in keyword order, for every read of every object, any keywords "
                             "(position / orientation incl. None and paths / arrays / scalars / style_label / style properties / parent= / children= / rejected values). SURPRISING but as coded "
@@ -62,7 +62,26 @@ def run(ctx, model_ok):
                             "NOT MODELLED: children= on the copy of a NON-collection and misspelt keywords (copy(positon=...)): setattr creates a plain instance attribute, nothing raises — and a later "
                             "position= then moves the objects of that ad-hoc `children` attribute (getattr(self, 'children', [])); a rejected STYLE keyword value (raises inside the final style.update, after "
                             "all other keywords took effect; partial style update of a half-built copy); `style=` dict keyword; rotate_from_* forms",
-                            "`_style_kwargs` dictionaries and `_children` lists as heap cells (represented by value / by the forest; link disjointness is copy_shares_no_node)"]
+                            "`_style_kwargs` dictionaries and `_children` lists as heap cells (represented by value / by the forest; link disjointness is copy_shares_no_node)",
+                            # audit2
+                            "what is theorem and what is stream in (c): Model copy0 hands every clone a block of fresh addresses BY DEFINITION (that is the assumption 'deepcopy clones every container'); "
+                            "copy_heap_disjoint / reachable_wf prove that the model's allocator never hands out an address twice through the label step, the keyword setters and every later operation. "
+                            "That the REAL copy() produces new container objects is observed, not proved: forestattr stream (id() of base array / Rotation / style / list after every operation, exact) and the oracle's graph walk",
+                            "user writes INTO a container handed out by a getter (`obj.polarization[0] = 5`, `obj.position[...] = ...`: the getters return the stored array / a view of it) are not operations of the model: "
+                            "in-place writes exist only for _position (move / rotate without padding) and _style; _orientation, the four array attributes and the list cell are only ever rebound, so for THOSE "
+                            "slots later_ops_invisible would hold even if copy() shared them — their independence rests on copy_heap_disjoint (model allocation) + observed identities + np.shares_memory, not on the history theorem",
+                            "operations outside the history alphabet AOp: reset_path, rotate_from_*, style= assignment, nested style properties (orientation= IS an operation since the keyword round: AOp.setOri, frame lemma setOri_step; "
+                            "setters raising part-way inside copy(**kw) are modelled by copyKwG: copy_bad_value_raises, copy_raise_original_unchanged); classes outside the six modelled "
+                            "(Cuboid, Circle, Dipole, Sphere, Sensor, Collection: e.g. Cylinder, CylinderSegment, Tetrahedron, Triangle, TriangularMesh with _faces/_vertices/status caches, Polyline, CustomSource with field_func) are oracle only",
+                            "later_ops_invisible needs the whole later history to name objects of ONE side only; histories working on both sides are covered by other_trees_untouched(_reachable) as long as the objects "
+                            "stay in different trees (any reachable state, any parent-closed set). Once a clone is put into the same tree as its original (clone added under the original's collection) "
+                            "no theorem separates the two any more (operations on the common ancestor legitimately reach both; that a move of the clone alone leaves its sibling original alone is stream only)",
+                            "the copied object itself under keywords: copy_attrs_equal is silent (class only) for kw != []; copy_root_unnamed_slots: containers no keyword names read as the original's; "
+                            "the value of a named slot, the scalars under scalar keywords and the style under style_* keywords: since the keyword round copy_kw_eq_assignments gives them as 'plain copy, then the assignments in keyword order' "
+                            "(every read of every object); the assignment operations themselves (setPos / setOri / setArr / setScal / setStyle) are model functions tied by the stream; "
+                            "keywords outside Ov: style=<dict>, nested style_a_b keywords, arbitrary names (setattr creates a plain attribute on the copy, e.g. Sensor.copy(polarization=...))",
+                            "'same field' is NOT a theorem: the view compared by copy_attrs_equal has class, path, the four arrays, three scalars and label/opacity/color; real objects also hold _magnetization "
+                            "(a separate array kept in sync with _polarization by the two setters), mesh data, vertices, field_func — outside the model, and no theorem connects the view to getB (C06 is about the pipeline model); oracle compares getB of original and copy bitwise"]
 
 
 def replay(ctx, payload):
